@@ -4,7 +4,7 @@
 //!        auth_cfg : 0 no authenticator | 1 registry (u1:p1, "ü:pä ss") | 2 custom: registry pairs + SNI credentials "snicreds-7e2a9c-canary"
 //!        sni_mode : 0 none | 1 "snicreds" | 2 "bad" | 3 the accepted credentials with some letters in upper case
 //!        method_kind : 1 CONNECT | 6 GET | 7 POST | 8 PUT ; target: authority (CONNECT) or absolute URI, `@A` `@B` `@U` are
-//!                      replaced by the canary addresses (TCP A, TCP B, UDP)
+//!                      replaced by the canary addresses (TCP A, TCP B, UDP), `@P` by the port of canary A
 //!        header  : raw Proxy-Authorization value (`-` = header absent)
 //!        payload : bytes sent after a 200 (CONNECT) / as body (POST); `@U` inside is not replaced
 //! out: per request [status (0 = connection ended without a response), challenge, warning_code, tcp_accepts, udp_datagrams, extra_responses]
@@ -124,6 +124,7 @@ fn subst(b: &[u8], c: &Canaries) -> Vec<u8> {
         .replace("@T", &c.timeout.to_string())
         .replace("@B", &format!("localhost:{}", c.tcp_b.port()))
         .replace("@U", &c.udp.to_string())
+        .replace("@P", &c.tcp_a.port().to_string())
         .into_bytes()
 }
 
